@@ -141,23 +141,24 @@ func (r Record) String() string {
 // TaskRecord is a snapshot of one row of the master's task table. The table
 // lives in the harness process and survives core restarts.
 type TaskRecord struct {
-	TaskID      string
-	Name        string // TaskInfo.Name = <class id>#<task id>
-	Class       string // short class name (file name under tasks/)
-	AgentID     string
-	Host        string
-	ExecutorID  string
-	EnvID       string // label environmentId at launch
-	ControlMode string // direct fairmq basic hook
-	MesosState  string // TASK_STAGING TASK_RUNNING TASK_KILLED …
-	Terminal    bool
-	FSM         string // state of the simulated process: STANDBY CONFIGURED RUNNING ERROR DONE
-	Kills       int    // KILL calls received for it
-	Commands    int    // MESSAGE commands delivered to it
-	LaunchSeq   int    // Seq of the ACCEPT that launched it
-	Epoch       int    // core incarnation that launched it
-	FrameworkID string
-	Info        *mesos.TaskInfo `json:"-"`
+	TaskID       string
+	Name         string // TaskInfo.Name = <class id>#<task id>
+	Class        string // short class name (file name under tasks/)
+	AgentID      string
+	Host         string
+	ExecutorID   string
+	EnvID        string // label environmentId at launch
+	ControlMode  string // direct fairmq basic hook
+	MesosState   string // TASK_STAGING TASK_RUNNING TASK_KILLED …
+	Terminal     bool
+	FSM          string // state of the simulated process: STANDBY CONFIGURED RUNNING ERROR DONE
+	Kills        int    // KILL calls received for it
+	RefusedKills int    // KILL calls naming it that the master refused (Outcome Undeliverable for EvKill)
+	Commands     int    // MESSAGE commands delivered to it
+	LaunchSeq    int    // Seq of the ACCEPT that launched it
+	Epoch        int    // core incarnation that launched it
+	FrameworkID  string
+	Info         *mesos.TaskInfo `json:"-"`
 }
 
 // ---- outcome scripts ---------------------------------------------------------------
@@ -189,7 +190,9 @@ const (
 	FailError
 	// Undeliverable: the master answers the MESSAGE call itself with HTTP 503
 	// and delivers nothing. (mesos-go's scheduler client treats any failed call
-	// as loss of the master and re-subscribes.)
+	// as loss of the master and re-subscribes.) For EvKill: the master answers the
+	// KILL call with HTTP 503 (the call fails at the caller), the task keeps running
+	// and TaskRecord.Kills does not count it (RefusedKills does).
 	Undeliverable
 	// Silent: the command is delivered and never answered; nothing changes.
 	// (LAUNCH: the task stays TASK_STAGING; KILL: the kill is ignored.)
